@@ -7,7 +7,7 @@ Driver for the changepoint models: `lake env lean --run Driver/Changepoints.lean
         -> `<id> P b0 b1 .. D b0 b1 ..`     P = model of the code (PELT; `K` = KeyError), D = un-pruned recursion
   case <id> / op enum / lens n1 n2 .. / calpha c.. / oalpha o.. / epochs e.. / pens <hex..> / minima <hexc hexo ..> / end
         -> for every length, every counts vector over calpha (lexicographic): one `F ..` line per epochs value
-           (`F -` when the total is 0), then for every offsets vector over oalpha, every penalty, every minima pair one
+           (`F -` when `fixedPre` fails), then for every offsets vector over oalpha, every penalty, every minima pair one
            `P .. D ..` line.  Terminated by `<id> done <number of lines>`.
 `<id> bad-op` for anything else.
 -/
